@@ -44,8 +44,14 @@ TRUSTED = [
     "under the proxy's (deferred parsing) settings; datagrams whose header decodes but whose body does not, traffic "
     "on a circuit already closed by CloseCircuit/DisableSimulator, SOCKS domain-form destinations, outbound messages "
     "whose name is on the ban list (the code bans inbound only), a PacketAck with zero IDs and no appended acks "
-    "(ProxiedCircuit refuses to emit an empty PacketAck) and datagrams from other ports on the client's IP are "
+    "(ProxiedCircuit refuses to emit an empty PacketAck), ChatFromViewer on AddonManager.COMMAND_CHANNEL (a command "
+    "for the proxy itself, consumed by design) and datagrams from other ports on the client's IP are "
     "'either' cases: forwarding (to the right peer, content intact) and discarding are both accepted",
+    "not modelled: what the proxy itself emits while executing a command-channel chat (acks / proxy replies injected "
+    "through the circuit); scenarios containing such chat are skipped by the correspondence (counted in the "
+    "distribution); the model's outcome OConsumed covers them with an empty send list",
+    "the decoding oracle's mi_consumed flag is obtained from the live AddonManager.handle_lludp_message with no addon "
+    "loaded (so it followed /repo's repair 40d86e5 of the empty-RLV-command-list swallow without a model change)",
 ]
 
 UCC = "UseCircuitCode"
@@ -1331,7 +1337,7 @@ def correspond(ctx):
         exh.samples = [{"tag": t, "events": len(sc["events"])} for t, sc in batch[500:503]]
         exh.impl_violations.sort(key=lambda v: v.get("class") in (POISON_CLASS, RLV_CLASS))
         out.append(exh)
-        nrand = ctx.pick(1500, 8000)
+        nrand = ctx.pick(1200, 8000)
         done = 0
         while done < nrand:
             chunk = min(500, nrand - done)
